@@ -13,8 +13,8 @@ ID = 'C12'
 LEVEL = 'exploration'
 INCLUDE = spaces.C02_SIX + ['n_geos_max', 'n_pretest_max']
 RULE = ('Engine A (metamorphic): every base case of DEV(3,d) u DEV(4,d) (d = 1 | 2; + hand-picked 2-deviation cases in '
-        'quick; + panels with duplicate (geo,date) rows and with a missing cell), both searches, is re-run under 14 presentations: 3 row permutations (reverse, rotation, interleave), '
-        '3 date offsets (+1 d, -400 d, +3653 d), IDs int<->str, 2 renamings that reverse the lexicographic order '
+        'quick; + panels with duplicate (geo,date) rows and with a missing cell), both searches, is re-run under 16 presentations: 3 row permutations (reverse, rotation, interleave), '
+        '3 date offsets (+1 d, -400 d, +3653 d), IDs int<->str / object column of ints / categorical, 2 renamings that reverse the lexicographic order '
         '(eligibility renamed alike), scale c in {2^-20, 2^-3, 2, 2^10, 2^30} with the budget range scaled alike. Oracle: same designs '
         'after mapping IDs back (groups, verdicts, rounded correlation; impact and last score entry equal, or scaled '
         'by c / 1/c; unchanged last entry when the exhaustive search has a budget range; 1e-7 relative under scaling). '
@@ -37,6 +37,10 @@ def search(case, rows=None, idmap=None, id_type='int', scale=1.0):
     geo_col = [idmap(r[1]) for r in base_rows]
     if id_type == 'str':
         geo_col = [str(g) for g in geo_col]
+    elif id_type == 'objint':       # the same integers held in an object-dtype column
+        geo_col = pd.Series(geo_col, dtype=object)
+    elif id_type == 'category':     # the IDs as a categorical column of strings
+        geo_col = pd.Series([str(g) for g in geo_col]).astype('category')
     df = pd.DataFrame({'date': pd.to_datetime([r[0] for r in base_rows]), 'geo': geo_col,
                        'sales': [r[2] * scale for r in base_rows]})
     ge = None
@@ -44,7 +48,7 @@ def search(case, rows=None, idmap=None, id_type='int', scale=1.0):
         ids, rr = [], []
         for g, r in enumerate(case['rows']):
             if r is not None:
-                ids.append(idmap(g) if id_type == 'int' else str(idmap(g)))
+                ids.append(idmap(g) if id_type in ('int', 'objint') else str(idmap(g)))
                 rr.append(r)
         if case.get('extra') is not None:
             ids.append(sc.EXTRA_ID)
@@ -155,6 +159,8 @@ def run_case(case):
         ('dates-400d', dict(rows=shift(rows, -400))),
         ('dates+10y', dict(rows=shift(rows, 3653))),
         ('ids-as-strings', dict(id_type='str')),
+        ('ids-as-object-ints', dict(id_type='objint')),
+        ('ids-as-categorical', dict(id_type='category')),
         ('renamed-1', dict(idmap=lambda g: RENAMES[0](g, G), id_type='str')),
         ('renamed-2', dict(idmap=lambda g: RENAMES[1](g, G), id_type='str')),
         ('scale-2^-3', dict(scale=0.125)),
@@ -167,7 +173,7 @@ def run_case(case):
         c = kw.get('scale', 1.0)
         other = search(case, **kw)
         msg = compare(base, other, c, budgeted, 1e-7 if c != 1.0 else 1e-9,
-                      strict=name.startswith(('rows-', 'dates', 'ids-as-strings')))
+                      strict=name.startswith(('rows-', 'dates', 'ids-as-')))
         if msg:
             viol.append({'key': 'C12:%s:%s' % (case['method'].split('_')[0], name), 'msg': name + ': ' + msg})
     nd = len(base[1]) if base[0] == 'ok' else 0
